@@ -351,6 +351,52 @@ def mg78(F, R):
         if x[0] == "call" and x[1].split("::")[-1] == "len" and mentions(x[2][0], lambda y: y[0] == "call" and y[1].endswith("::keys") and strip_load(y[2][0]) == gp):
             return True
         return False
+    def is_unmapped_list(x):
+        """x is (collected from) keys(right graph) filtered by `!mapped.contains_key(v)` (and, redundantly, `v != right`: the root is
+        the first vertex the descent maps)"""
+        for fx in [y for y in walk(x) if y[0] == "adapt" and y[1] == "filter"]:
+            try:
+                if not mentions(fx[2], lambda y: y[0] == "call" and y[1].endswith("::keys") and y[2] and strip_load(y[2][0]) == gp):
+                    continue
+                clo = strip_load(fx[3][0])
+                cb = F.bodies.get(clo[1]) if clo[0] == "closure" else None
+                summ = pred_summary(cb) if cb is not None else []
+                if len(summ) != 1:
+                    continue
+                mapping = {}
+                for ui, uop in enumerate(clo[2]):
+                    mapping[("upvar", ui)] = m.expr_local(uop[1], uop[2]) if uop[0] == "addr" else uop
+                has_unmapped, other = False, False
+                for f in summ[0]:
+                    if "Level" in repr(f):
+                        continue
+                    ce = strip_load(f[1]) if f[0] == "bool" else None
+                    if ce is not None and f[2] is False and ce[0] == "call" and ce[1].split("::")[-1] == "contains_key" and len(ce[2]) == 2 and \
+                            strip_sites(strip_load(unload(subst(ce[2][0], mapping)))) == strip_sites(mapx) and mentions(ce[2][1], lambda y: y == ("param", 2)):
+                        has_unmapped = True
+                        continue
+                    g2 = unload(subst(f, mapping))
+                    if g2[0] in ("cmp", "notin") and mentions(g2, lambda y: y == ("param", 2)):
+                        # `v != right` only
+                        rest = [strip_load(y) for y in (g2[2:4] if g2[0] == "cmp" else (g2[1],))]
+                        if g2[0] == "cmp" and g2[1] == "!=" and any(strip_load(unload(y)) == ("param", 4) or y == ("param", 4) for y in rest):
+                            continue
+                    other = True
+                if has_unmapped and not other:
+                    return True
+            except Exception:
+                continue
+        return False
+
+    def is_empty_unmapped(f, truth):
+        """fact: `<unmapped list>.is_empty()` has the given truth value (or its len compared with 0)"""
+        if f[0] == "bool" and f[2] is truth:
+            ce = strip_load(f[1])
+            return ce[0] == "call" and ce[1].split("::")[-1] == "is_empty" and ce[2] and is_unmapped_list(ce[2][0])
+        if f[0] in ("in", "notin") and f[2] == frozenset([0]) and (f[0] == "in") == truth:
+            ce = strip_load(f[1])
+            return ce[0] == "call" and ce[1].split("::")[-1] == "len" and ce[2] and is_unmapped_list(ce[2][0])
+        return False
     eqfact = None
     for site, e in oks:
         facts = m.facts_at(site)
@@ -359,6 +405,8 @@ def mg78(F, R):
         for f in facts:
             if f[0] == "cmp" and f[1] == "==" and ((is_map_len(f[2]) and is_right_count(f[3])) or (is_map_len(f[3]) and is_right_count(f[2]))):
                 q = f
+            elif is_empty_unmapped(f, True):
+                q = f           # no present vertex of the right graph is unmapped: the same completeness test, on the list itself
         detail = {"guards": [show(f, m) for f in facts if "Level" not in repr(f)]}
         if not t:
             R.bad("MG7", "MG7/Sodg::merge/ok-despite-failed-descent", m.where(site), "merge() can return Ok although the descent failed", detail)
@@ -379,6 +427,7 @@ def mg78(F, R):
     for site, e in errs:
         facts = m.facts_at(site)
         ne = any(f[0] == "cmp" and f[1] == "!=" and ((is_map_len(f[2]) and is_right_count(f[3])) or (is_map_len(f[3]) and is_right_count(f[2]))) for f in facts)
+        ne = ne or any(is_empty_unmapped(f, False) for f in facts)
         pay = dict(e[3])["0"]
         diff = [x for x in walk(pay) if x[0] == "call" and (x[1].endswith("::sub") or x[1].split("::")[-1] == "difference") and "HashSet" in x[1]]
         okdiff = False
@@ -406,6 +455,37 @@ def mg78(F, R):
                     if from_right and not_mapped and not extra and mentions(pay, lambda y: strip_sites(y) == strip_sites(strip_load(p.args[0]))):
                         okdiff = True
                         sorts = sorts or [("keys() of the right graph is ascending", None)]
+        if not okdiff and is_unmapped_list(pay):
+            okdiff = True
+        # alternative: keys(right) passed through `filter(|v| !<mapped right ids>.contains(v))`
+        if not okdiff:
+            for fx in [x for x in walk(pay) if x[0] == "adapt" and x[1] == "filter"]:
+                try:
+                    src_right = mentions(fx[2], lambda y: y[0] == "call" and y[1].endswith("::keys") and y[2] and strip_load(y[2][0]) == gp)
+                    clo = strip_load(fx[3][0])
+                    cb = F.bodies.get(clo[1]) if clo[0] == "closure" else None
+                    summ = pred_summary(cb) if cb is not None else []
+                    if not src_right or len(summ) != 1:
+                        continue
+                    mapping = {}
+                    for ui, uop in enumerate(clo[2]):
+                        mapping[("upvar", ui)] = m.expr_local(uop[1], uop[2]) if uop[0] == "addr" else uop
+                    conj = [f for f in summ[0] if "Level" not in repr(f)]
+                    if len(conj) != 1:
+                        continue
+                    f = conj[0]
+                    ce = strip_load(f[1]) if f[0] == "bool" else None
+                    if ce is None or f[2] is not False or ce[0] != "call" or ce[1].split("::")[-1] not in ("contains", "contains_key") or len(ce[2]) != 2:
+                        continue
+                    recv = unload(subst(ce[2][0], mapping))
+                    arg_is_item = mentions(ce[2][1], lambda y: y == ("param", 2))
+                    of_map = strip_sites(strip_load(recv)) == strip_sites(mapx) or \
+                        (mentions(recv, lambda y: y[0] == "iter" and y[2] == "keys" and strip_sites(strip_load(y[1])) == strip_sites(mapx)) and
+                         not mentions(recv, lambda y: y[0] == "iter" and y[2] in ("values", "values_mut", "into_values")))
+                    if arg_is_item and of_map:
+                        okdiff = True
+                except Exception:
+                    continue
         detail = {"guards": [show(f, m) for f in facts if "Level" not in repr(f)]}
         if not ne:
             R.bad("MG8", "MG8/Sodg::merge/err-not-on-incomplete-edge", m.where(site), "the Err result is not the other edge of the completeness test", detail)
